@@ -38,6 +38,8 @@ type ledRec struct {
 	counting bool // delivered with status same while (r,i) was the Voter's context
 }
 
+type member struct{ vt, addr, w uint64 }
+
 type violation struct {
 	what    string
 	matcher string
@@ -250,13 +252,18 @@ func (l *ledger) check(w *world, evs []string, thresholds []uint64, msg []uint64
 			for a, wgt := range sta.Info[hh] {
 				sum += wgt
 				id := addrID(a)
-				found := false
+				found, lenient := false, false
 				for _, rec := range l.recs[ledKey{r, i, true, 2, id}] {
-					if rec.h == h && rec.w == uint64(wgt) && rec.cred != 0 {
+					if rec.h == h && rec.w == uint64(wgt) && rec.cred == 1 {
 						found = true
 					}
+					if rec.h == h && rec.w == uint64(wgt) && rec.cred == 2 {
+						lenient = true
+					}
 				}
-				if !found {
+				if !found && lenient {
+					l.fail(fmt.Sprintf("precommit_justified: counted prevoter %d (weight %d) for %d in (%d,%d) has no verified credential: its vote was accepted only through verifySortition's old-round leniency", id, wgt, h, r, i), matcherLenient)
+				} else if !found {
 					l.fail(fmt.Sprintf("precommit_justified: counted prevoter %d (weight %d) for %d in (%d,%d) never delivered such a vote with accepted credentials", id, wgt, h, r, i), "")
 				}
 			}
@@ -276,6 +283,15 @@ func (l *ledger) check(w *world, evs []string, thresholds []uint64, msg []uint64
 			pc := parseEntries(strings.TrimPrefix(f[5], "pc="))
 			certs := parseEntries(strings.TrimPrefix(f[7], "certs="))
 			obs := commitObs{r: cr, i: ci, h: chh, cert: cc != 0, accepted: true}
+			w.lastCommitMembers = w.lastCommitMembers[:0]
+			for a, wgt := range pc {
+				w.lastCommitMembers = append(w.lastCommitMembers, member{3, a, wgt})
+			}
+			if cc != 0 {
+				for a, wgt := range certs {
+					w.lastCommitMembers = append(w.lastCommitMembers, member{5, a, wgt})
+				}
+			}
 			if w.e2e != nil {
 				obs.accepted, obs.detail = w.e2e.lastVerdict()
 			} else if l.uniform {
@@ -312,7 +328,32 @@ func (l *ledger) check(w *world, evs []string, thresholds []uint64, msg []uint64
 	}
 }
 
-// matchCommit names the known finding a failed commit belongs to ("" = none).
+// matcherLenient is the matcher of known finding F-C03b: a vote whose credential FAILED the strict check was accepted
+// by verifySortition's leniency for old votes (which compares with the Server's context) and then counted in the Voter's
+// current context (delivered with status msgSame, or as a stale precommit stored in the wrapper of a context the Voter is
+// still in or returns to).
+const matcherLenient = "lenient-credential-counted"
+
+// matchCommit names the known finding a failed commit belongs to ("" = none): F-C03b when removing nothing but the
+// leniently accepted members explains the rejection, i.e. some packed precommit / certificate vote of the commit was
+// accepted through the leniency while delivered with status same.
 func (l *ledger) matchCommit(w *world, obs commitObs) string {
+	if len(w.lastCommitMembers) == 0 {
+		return ""
+	}
+	for _, m := range w.lastCommitMembers {
+		strict, lenient := false, false
+		for _, rec := range l.recs[ledKey{obs.r, obs.i, true, m.vt, m.addr}] {
+			if rec.h == obs.h && rec.w == m.w && rec.cred == 1 {
+				strict = true
+			}
+			if rec.h == obs.h && rec.w == m.w && rec.cred == 2 {
+				lenient = true
+			}
+		}
+		if lenient && !strict {
+			return matcherLenient
+		}
+	}
 	return ""
 }
